@@ -162,6 +162,7 @@ def evaluate(text, as_include, stats, d):
     return None
 
 
+@common.job
 def _job(job):
     name, as_include, lo, hi, double = job
     import contextlib
@@ -188,6 +189,22 @@ def _job(job):
         sl = faults[lo:hi]
     sink = io.StringIO()
     with contextlib.redirect_stderr(sink), contextlib.redirect_stdout(sink):
+        # history dimension: the valid program is compiled first at the very paths the mutants are
+        # then written to, in the same process (a result remembered per path must not mask a later error)
+        from maltoolbox.language.compiler import MalCompiler
+        with open(os.path.join(d, 'helper.mal'), 'w', encoding='utf-8') as f:
+            f.write(HELPER)
+        for fn_ in ('mut.mal', 'root.mal'):
+            with open(os.path.join(d, fn_), 'w', encoding='utf-8') as f:
+                f.write(text if fn_ == 'mut.mal' else '#id: "org.root" #version: "1.0.0"\ninclude "mut.mal"\ncategory Rt { asset Rr { | rr } }\n')
+        try:
+            MalCompiler().compile(os.path.join(d, 'mut.mal'))
+            if name != 'inc':
+                MalCompiler().compile(os.path.join(d, 'root.mal'))
+            stats['valid_base_compiles'] = stats.get('valid_base_compiles', 0) + 1
+        except Exception as e:  # noqa: BLE001
+            viols.append(common.Violation(f'valid_program_rejected:{type(e).__name__}', f'base program {name} does not compile: {e}',
+                                          case={'program': name}).to_json())
         for kind, where, texts in sl:
             mut = ' '.join(texts) + '\n'
             stats['mutants'] = stats.get('mutants', 0) + 1
